@@ -460,6 +460,9 @@ def stream_taper(ctx):
         if not same_result(r, m, ('op', 'fixed')):
             st.disagree(f, case, r, m)
         stale = 'ok' in m and m['ok']['stale']
+        if 'ok' in m and not ml:
+            # hypothesis of reduce_terms_agrees_on_codespace, evaluated by the driver on this input
+            st.count('exact-regime(%s):%s' % (f, m['ok']['exact']))
         if 'error' in r:
             if bad is None and not man:
                 st.violate('%s rejects an admissible stabilizer list' % f, case, r)
@@ -617,8 +620,11 @@ def stream_proj(ctx):
             continue
         st.count('project:' + ('ok' if 'ok' in r else r['error']))
         if ('ok' in r) != ('ok' in m) or ('error' in r and r['error'] != m['error']) or \
-                ('ok' in r and canon_op_json(r['ok']) != canon_op_json(m['ok'])):
+                ('ok' in r and canon_op_json(r['ok']) != canon_op_json(m['ok']['op'])):
             st.disagree('project_onto_sector', case, r, m)
+        if 'ok' in m:
+            # hypothesis of project_onto_sector_sound, evaluated by the driver on this input
+            st.count('exact-regime(project):%s' % m['ok']['exact'])
         try:
             err = of.transforms.projection_error(op, qubits_t, sectors_t)
             if snap_any(op) != op0:
@@ -1108,7 +1114,7 @@ def stream_bands(ctx):
                 r = of.transforms.project_onto_sector(Q, list(qubits), list(sectors))
                 rb = of.transforms.project_onto_sector(relabel_q(of, Q, sh), [q + OFF for q in qubits], list(sectors))
                 jr, jb = enc_op('qubit', r.terms), enc_op('qubit', rb.terms)
-                if 'ok' not in m or canon_op_json(jr) != canon_op_json(m['ok']):
+                if 'ok' not in m or canon_op_json(jr) != canon_op_json(m['ok']['op']):
                     st.disagree('project_onto_sector (sizes)', case, jr, m)
                 if canon_op_json(jb) != jrelabel(jr, sh):
                     st.violate('shifting all qubit indices by %d does not commute with project_onto_sector' % OFF, case,
